@@ -2174,6 +2174,15 @@ impl KnowledgeGraph {
             }
             drop(guard);
 
+            // Rules registered before the engine existed must be known to it as well,
+            // otherwise their materializations would never be invalidated
+            for name in self.rule_catalog.list() {
+                if let Some(compiled) = self.compile_rule_for_dd(&name) {
+                    dd.register_rule(compiled)
+                        .map_err(StorageError::IncrementalEngineError)?;
+                }
+            }
+
             self.incremental = Some(dd);
         }
         Ok(())
@@ -2511,11 +2520,8 @@ impl KnowledgeGraph {
         let result = self.rule_catalog.register_rule(rule_def)?;
 
         // Register with IncrementalEngine for materialization
-        if let Some(ref dd) = self.incremental {
-            let compiled_rule = self.compile_rule_for_dd(rule_def);
-            if let Err(e) = dd.register_rule(compiled_rule) {
-                eprintln!("Warning: failed to register rule with IncrementalEngine: {e}");
-            }
+        if self.incremental.is_some() {
+            self.sync_rule_with_dd(&rule_def.name);
 
             // Auto-materialize the rule
             // Execute the rule against current base data and store results
@@ -2580,61 +2586,78 @@ impl KnowledgeGraph {
         Ok(())
     }
 
-    /// Compile a RuleDef into a CompiledRule for IncrementalEngine
-    fn compile_rule_for_dd(&self, rule_def: &RuleDef) -> CompiledRule {
+    /// Bring the IncrementalEngine's view of one rule in line with the catalog after any
+    /// change to the rule's clauses (clause added, removed, replaced, cleared, rule dropped).
+    ///
+    /// The old materialization was computed from the old clauses and the old dependency
+    /// edges describe the old clauses, so both go; the dependencies of all remaining
+    /// clauses are registered; and every relation that reads this one is invalidated.
+    fn sync_rule_with_dd(&self, name: &str) {
+        let Some(ref dd) = self.incremental else {
+            return;
+        };
+        if let Err(e) = dd.remove_rule(name) {
+            eprintln!("Warning: failed to remove rule from IncrementalEngine: {e}");
+        }
+        if let Some(compiled_rule) = self.compile_rule_for_dd(name) {
+            if let Err(e) = dd.register_rule(compiled_rule) {
+                eprintln!("Warning: failed to register rule with IncrementalEngine: {e}");
+            }
+        }
+        if let Err(e) = dd.notify_base_update(name) {
+            eprintln!("Warning: failed to invalidate dependents of rule '{name}': {e}");
+        }
+    }
+
+    /// Compile the catalog's definition of a rule (all of its clauses) into a CompiledRule
+    /// for IncrementalEngine. `None` if the rule does not exist or has no clauses.
+    fn compile_rule_for_dd(&self, name: &str) -> Option<CompiledRule> {
         use std::collections::HashSet;
 
-        let name = rule_def.name.clone();
+        let definition = self.rule_catalog.get(name)?;
+        let first_clause = definition.rules.first()?;
 
-        // Extract dependencies from rule body
+        // Extract dependencies from the bodies of all clauses
         let mut dependencies: HashSet<String> = HashSet::new();
-        for body_pred in &rule_def.rule.body {
-            if let SerializableBodyPred::Atom { relation, .. } = body_pred {
-                // Don't count the rule's own head as a dependency (for recursive rules)
-                if relation != &name {
-                    dependencies.insert(relation.clone());
+        // Check if rule is recursive (references itself in body)
+        let mut is_recursive = false;
+        for clause in &definition.rules {
+            for body_pred in &clause.body {
+                if let SerializableBodyPred::Atom { relation, .. } = body_pred {
+                    // Don't count the rule's own head as a dependency (for recursive rules)
+                    if relation == name {
+                        is_recursive = true;
+                    } else {
+                        dependencies.insert(relation.clone());
+                    }
                 }
             }
         }
 
-        // Check if rule is recursive (references itself in body)
-        let is_recursive = rule_def.rule.body.iter().any(|p| {
-            if let SerializableBodyPred::Atom { relation, .. } = p {
-                relation == &name
-            } else {
-                false
-            }
-        });
-
         // Extract output schema from head args
-        let output_schema: Vec<String> = rule_def
-            .rule
+        let output_schema: Vec<String> = first_clause
             .head_args
             .iter()
             .enumerate()
             .map(|(i, _)| format!("col{i}"))
             .collect();
 
-        CompiledRule {
-            name,
+        Some(CompiledRule {
+            name: name.to_string(),
             clauses: vec![], // IR compilation deferred to execution time
             dependencies,
             is_recursive,
             output_schema,
             stratum: 0, // Stratum computed by RuleCatalog
-        }
+        })
     }
 
     /// Drop a view
     pub fn drop_rule(&mut self, name: &str) -> Result<(), String> {
         self.rule_catalog.drop(name)?;
 
-        // Remove from IncrementalEngine
-        if let Some(ref dd) = self.incremental {
-            if let Err(e) = dd.remove_rule(name) {
-                eprintln!("Warning: failed to remove rule from IncrementalEngine: {e}");
-            }
-        }
+        // Remove from IncrementalEngine and invalidate what was derived from it
+        self.sync_rule_with_dd(name);
 
         self.publish_snapshot();
         Ok(())
@@ -2680,15 +2703,9 @@ impl KnowledgeGraph {
     pub fn drop_rules_by_prefix(&mut self, prefix: &str) -> Result<Vec<String>, String> {
         let dropped = self.rule_catalog.drop_by_prefix(prefix)?;
 
-        // Remove each from IncrementalEngine
-        if let Some(ref dd) = self.incremental {
-            for name in &dropped {
-                if let Err(e) = dd.remove_rule(name) {
-                    eprintln!(
-                        "Warning: failed to remove rule '{name}' from IncrementalEngine: {e}"
-                    );
-                }
-            }
+        // Remove each from IncrementalEngine and invalidate what was derived from it
+        for name in &dropped {
+            self.sync_rule_with_dd(name);
         }
 
         if !dropped.is_empty() {
@@ -2788,6 +2805,7 @@ impl KnowledgeGraph {
     /// The view remains registered but with no rules, ready for new rule registration
     pub fn clear_rule(&mut self, name: &str) -> Result<(), String> {
         self.rule_catalog.clear_rules(name)?;
+        self.sync_rule_with_dd(name);
         self.publish_snapshot();
         Ok(())
     }
@@ -2800,6 +2818,7 @@ impl KnowledgeGraph {
         new_rule: crate::statement::SerializableRule,
     ) -> Result<(), String> {
         self.rule_catalog.replace_rule(name, index, new_rule)?;
+        self.sync_rule_with_dd(name);
         self.publish_snapshot();
         Ok(())
     }
@@ -2808,6 +2827,7 @@ impl KnowledgeGraph {
     /// Returns true if the entire rule was deleted (last clause removed)
     pub fn remove_rule_clause(&mut self, name: &str, index: usize) -> Result<bool, String> {
         let result = self.rule_catalog.remove_rule_clause(name, index)?;
+        self.sync_rule_with_dd(name);
         self.publish_snapshot();
         Ok(result)
     }
@@ -4176,6 +4196,127 @@ mod tests {
                 "path should be invalidated after base data change"
             );
         }
+    }
+
+    /// Enable the engine on the default KG, store `base(1)`, and return the storage.
+    fn storage_with_base_fact(temp: &tempfile::TempDir, enable_first: bool) -> StorageEngine {
+        let config = create_test_config(temp.path().to_path_buf());
+        let mut storage = StorageEngine::new(config).unwrap();
+        storage.use_knowledge_graph("default").unwrap();
+        if enable_first {
+            let kg = storage.knowledge_graphs.get("default").unwrap();
+            kg.write().enable_incremental().unwrap();
+        }
+        storage
+            .insert_tuples("base", vec![Tuple::new(vec![Value::Int32(1)])])
+            .unwrap();
+        storage
+    }
+
+    fn materialize(storage: &StorageEngine, relation: &str) {
+        let kg = storage.knowledge_graphs.get("default").unwrap();
+        let kg = kg.read();
+        kg.materialize_derived_relation(relation, vec![Tuple::new(vec![Value::Int32(1)])])
+            .unwrap();
+        assert!(kg.snapshot().is_materialized(relation));
+    }
+
+    fn is_materialized(storage: &StorageEngine, relation: &str) -> bool {
+        let kg = storage.knowledge_graphs.get("default").unwrap();
+        let kg = kg.read();
+        kg.snapshot().is_materialized(relation)
+    }
+
+    #[test]
+    fn test_rule_edits_invalidate_materialization() {
+        let temp = tempfile::TempDir::new().unwrap();
+        let storage = storage_with_base_fact(&temp, true);
+        let kg_lock = storage.knowledge_graphs.get("default").unwrap();
+
+        // Adding a clause makes the materialization of the old clause set stale
+        kg_lock
+            .write()
+            .register_rule(&make_simple_rule_def("derived", "base"))
+            .unwrap();
+        materialize(&storage, "derived");
+        kg_lock
+            .write()
+            .register_rule(&make_simple_rule_def("derived", "other"))
+            .unwrap();
+        assert!(!is_materialized(&storage, "derived"));
+
+        // ... so does removing one
+        materialize(&storage, "derived");
+        kg_lock.write().remove_rule_clause("derived", 1).unwrap();
+        assert!(!is_materialized(&storage, "derived"));
+
+        // ... replacing one (and the new clause's dependency is tracked from then on)
+        materialize(&storage, "derived");
+        kg_lock
+            .write()
+            .replace_rule("derived", 0, make_simple_rule_def("derived", "other").rule)
+            .unwrap();
+        assert!(!is_materialized(&storage, "derived"));
+        materialize(&storage, "derived");
+        storage
+            .insert_tuples("other", vec![Tuple::new(vec![Value::Int32(2)])])
+            .unwrap();
+        assert!(!is_materialized(&storage, "derived"));
+
+        // ... and clearing the rule
+        materialize(&storage, "derived");
+        kg_lock.write().clear_rule("derived").unwrap();
+        assert!(!is_materialized(&storage, "derived"));
+    }
+
+    #[test]
+    fn test_rule_edit_invalidates_dependent_rules() {
+        let temp = tempfile::TempDir::new().unwrap();
+        let storage = storage_with_base_fact(&temp, true);
+        let kg_lock = storage.knowledge_graphs.get("default").unwrap();
+
+        // upper(X) <- lower(X) is materialized before lower has any rule
+        kg_lock
+            .write()
+            .register_rule(&make_simple_rule_def("upper", "lower"))
+            .unwrap();
+        materialize(&storage, "upper");
+        kg_lock
+            .write()
+            .register_rule(&make_simple_rule_def("lower", "base"))
+            .unwrap();
+        assert!(!is_materialized(&storage, "upper"));
+
+        // a base update reaches upper through the unmaterialized lower
+        materialize(&storage, "upper");
+        storage
+            .insert_tuples("base", vec![Tuple::new(vec![Value::Int32(2)])])
+            .unwrap();
+        assert!(!is_materialized(&storage, "upper"));
+
+        // dropping lower changes upper as well
+        materialize(&storage, "upper");
+        kg_lock.write().drop_rule("lower").unwrap();
+        assert!(!is_materialized(&storage, "upper"));
+    }
+
+    #[test]
+    fn test_rules_registered_before_engine_are_tracked() {
+        let temp = tempfile::TempDir::new().unwrap();
+        let storage = storage_with_base_fact(&temp, false);
+        let kg_lock = storage.knowledge_graphs.get("default").unwrap();
+
+        kg_lock
+            .write()
+            .register_rule(&make_simple_rule_def("derived", "base"))
+            .unwrap();
+        kg_lock.write().enable_incremental().unwrap();
+
+        materialize(&storage, "derived");
+        storage
+            .insert_tuples("base", vec![Tuple::new(vec![Value::Int32(2)])])
+            .unwrap();
+        assert!(!is_materialized(&storage, "derived"));
     }
 
     #[test]
